@@ -20,8 +20,11 @@ Mags == << Zero, One, FromInt(2), FromInt(7), FromInt(8), FromInt(9), FromInt(10
            FromInt(255), FromInt(305419896),
            Sub(P(31), FromInt(2)), Sub(P(31), One), P(31), Add(P(31), One),
            Sub(P(32), FromInt(2)), Sub(P(32), One), P(32), Add(P(32), One),
-           Add(P(40), FromInt(305419896)), P(62),
+           Add(P(40), FromInt(305419896)),
+           FromDigits(<<8, 1, 9, 8, 5, 5, 2, 9, 2, 1, 6, 4, 8, 6, 8, 9, 5>>, FALSE),                 \* 0x0123456789abcdef
+           P(62),
            Sub(P(63), FromInt(2)), Sub(P(63), One), P(63), Add(P(63), One),
+           FromDigits(<<1, 8, 3, 6, 4, 7, 5, 8, 5, 4, 4, 4, 9, 3, 0, 6, 4, 7, 2, 0>>, FALSE),        \* 0xfedcba9876543210
            Sub(P(64), FromInt(2)), Sub(P(64), One) >>
 Bases == {2, 8, 10, 16}
 (* digit strings and decimal images, computed once (constant definitions are evaluated at start-up) *)
